@@ -2337,6 +2337,11 @@ impl Fsm {
             .sort(&|s1, s2| self.state_entry_order(s1, s2))
             .iterator()
         {
+            // A state that was not exited in this microstep is not entered again (the entry set of a
+            // transition to the history of an ancestor contains the ancestors of the recorded states).
+            if get_global!(datamodel).configuration.isMember(s) {
+                continue;
+            }
             #[cfg(feature = "Trace_State")]
             {
                 self.tracer.trace_enter_state(self.get_state_by_id(*s));
